@@ -71,7 +71,7 @@ class Memory(Backend):
         expire: float | None = None,
         exist: bool | None = None,
     ) -> bool:
-        if exist is not None and (key in self.store) is not exist:
+        if exist is not None and (await self._live_entry(key) is not None) is not exist:
             return False
         if self._serializer:
             value = await self._serializer.encode(self, key=key, value=value, expire=expire)
@@ -122,6 +122,8 @@ class Memory(Backend):
         return await self._key_exist(key)
 
     async def delete(self, key: Key):
+        if await self._live_entry(key, touch=False) is None:
+            return False
         return await self._delete(key)
 
     async def _delete(self, key: Key) -> bool:
@@ -150,17 +152,16 @@ class Memory(Backend):
                 yield key, value
 
     async def expire(self, key: Key, timeout: float):
-        if not await self._key_exist(key):
+        entry = await self._live_entry(key)
+        if entry is None:
             return
-        value = await self._get(key, default=_missed)
-        if value is _missed:
-            return
-        self._set(key, value, timeout)
+        self._set(key, entry[1], timeout)
 
     async def get_expire(self, key: Key) -> int:
-        if key not in self.store:
+        entry = await self._live_entry(key, touch=False)
+        if entry is None:
             return NOT_EXIST
-        expire_at, _ = self.store[key]
+        expire_at, _ = entry
         if expire_at is not None:
             return round(expire_at - time.time())
         return UNLIMITED
@@ -187,10 +188,24 @@ class Memory(Backend):
         expire = time.time() + expire if expire else None
         if expire is None and key in self.store:
             expire, _ = self.store[key]
+            if expire and expire <= time.time():
+                expire = None  # never inherit the deadline of an expired, not yet purged entry
         self.store[key] = (expire, copy(value))
         self.store.move_to_end(key)
         if len(self.store) > self.size:
             self.store.popitem(last=False)
+
+    async def _live_entry(self, key: Key, touch: bool = True) -> tuple[float | None, Any] | None:
+        """stored (expire_at, value) of a key that is present and not expired; an expired entry is purged"""
+        if key not in self.store:
+            return None
+        if touch:
+            self.store.move_to_end(key)
+        entry = self.store[key]
+        if entry[0] and entry[0] <= time.time():
+            await self._delete(key)
+            return None
+        return entry
 
     @overload
     async def _get(self, key: Key, default: Default) -> Value | Default: ...
@@ -199,13 +214,10 @@ class Memory(Backend):
     async def _get(self, key: Key, default: None = None) -> Value | None: ...
 
     async def _get(self, key: Key, default: Default | None = None) -> Value | None:
-        if key not in self.store:
+        entry = await self._live_entry(key)
+        if entry is None:
             return default
-        self.store.move_to_end(key)
-        expire_at, value = self.store[key]
-        if expire_at and expire_at < time.time():
-            await self._delete(key)
-            return default
+        value = entry[1]
         if not self._serializer:
             return value
         return await self._serializer.decode(self, key=key, value=value, default=default)
